@@ -300,6 +300,17 @@ static auto make_stmt_parser() {
     typed_term t0(string_term<65>(big0), LexF<0>{}); typed_term t1(string_term<65>(big1), LexF<1>{}); typed_term t2(string_term<65>(big2), LexF<2>{});
     return new parser(S, terms(t0, t1, t2), nterms(S, I), rules(S() >= StmtF{}, S(S, I, t2) >= StmtF{}, S(S, error, t2) >= StmtF{}, I(t0) >= StmtF{}, I(t1) >= StmtF{}));
 }
+// six-slot list grammar: more terms can end in one automaton state than a state's conflicted_recognition has slots (4)
+constexpr char big3[] = "DDDDDDDDDDDDDDDDDDDDDDDDDDDDDDDDDDDDDDDDDDDDDDDDDDDDDDDDDDDDDDDD";
+constexpr char big4[] = "EEEEEEEEEEEEEEEEEEEEEEEEEEEEEEEEEEEEEEEEEEEEEEEEEEEEEEEEEEEEEEEE";
+constexpr char big5[] = "FFFFFFFFFFFFFFFFFFFFFFFFFFFFFFFFFFFFFFFFFFFFFFFFFFFFFFFFFFFFFFFF";
+static auto make_list6_parser() {
+    static constexpr nterm<int> L("L");
+    typed_term t0(string_term<65>(big0), LexF<0>{}); typed_term t1(string_term<65>(big1), LexF<1>{}); typed_term t2(string_term<65>(big2), LexF<2>{});
+    typed_term t3(string_term<65>(big3), LexF<3>{}); typed_term t4(string_term<65>(big4), LexF<4>{}); typed_term t5(string_term<65>(big5), LexF<5>{});
+    return new parser(L, terms(t0, t1, t2, t3, t4, t5), nterms(L), rules(L() >= ListF{}, L(L, t0) >= ListF{}, L(L, t1) >= ListF{}, L(L, t2) >= ListF{}, L(L, t3) >= ListF{}, L(L, t4) >= ListF{}, L(L, t5) >= ListF{}));
+}
+using List6Parser = std::remove_pointer_t<decltype(make_list6_parser())>;
 using ListParser = std::remove_pointer_t<decltype(make_list_parser())>;
 using StmtParser = std::remove_pointer_t<decltype(make_stmt_parser())>;
 
@@ -538,6 +549,26 @@ static void run_c04() {
     }
 }
 
+// ordered term sets of size 4..6 from a pool in which most terms recognise "a": more terms end in one state than it has slots for
+static void run_c04_wide() {
+    List6Parser* p6 = make_list6_parser();
+    std::vector<TermSpec> pool = {{'c', "a"}, {'r', "a|b"}, {'s', "a"}, {'s', "ab"}, {'r', "(a)"}, {'r', "ab|a"}, {'r', "ab?"}, {'r', "b|a"}, {'r', "a?b"}, {'r', "a|ab"}};
+    if (cfg.pool == 0) pool.resize(8);
+    std::vector<std::string> inputs; gen_inputs("abc ", cfg.maxlen, inputs);
+    std::vector<std::vector<TermSpec>> sets; std::vector<int> pick;
+    std::function<void(size_t)> rec = [&](size_t want) {
+        if (pick.size() == want) { std::vector<TermSpec> ts; for (int i : pick) ts.push_back(pool[i]); sets.push_back(ts); return; }
+        for (size_t i = 0; i < pool.size(); ++i) { if (std::find(pick.begin(), pick.end(), (int)i) != pick.end()) continue; pick.push_back((int)i); rec(want); pick.pop_back(); }
+    };
+    for (int k = 4; k <= cfg.setsize; ++k) rec((size_t)k);
+    long idx = 0;
+    for (auto& ts : sets) {
+        if ((idx++ % cfg.nshards) != cfg.shard) continue;
+        if (elapsed() > cfg.deadline) { deadline_hit = true; break; }
+        run_termset(*p6, ts, inputs, false, 0);
+    }
+}
+
 static void run_c10() {
     g_list = make_list_parser(); g_stmt = make_stmt_parser();
     // term sets with single-char terms, a multi-character term and a term whose lexeme may span lines
@@ -744,6 +775,7 @@ int main(int argc, char** argv) {
     std::signal(SIGSEGV, crash_handler); std::signal(SIGABRT, crash_handler); std::signal(SIGBUS, crash_handler);
     if (cfg.mode == "c03") run_c03();
     else if (cfg.mode == "c04") run_c04();
+    else if (cfg.mode == "c04w") run_c04_wide();
     else if (cfg.mode == "c10") run_c10();
     else if (cfg.mode == "c17") run_c17();
     else if (cfg.mode == "dump-termsets") { run_dump_termsets(cfg.one); return 0; }
